@@ -40,6 +40,10 @@ CLAIMED = {
  'C14': dict(text="Lean theorems (21) over a faithful model of AbstractFormat with concretisation gamma written from the class docstring: add/sub/union/abs/<= soundness at full strength (for all well-formed formats and all members incl. -0, infinities, NaN), member <-> gamma, multiplication sound up to the recorded -0 flag (F29), rounding-identity soundness for MPFloat targets; counterexample theorems document the repaired defects on the legacy definitions. Tie: all pairs of a grid of abstract formats through the real operators vs the model, an independent rational membership oracle on enumerated members, and program-level traced executions under pinned contexts (every run-time value must be a member of the inferred format; elim_round end to end).",
              note=TB + "; the program-level fixpoint (_join_bounds, widening, branch refinement) is monitored on traced executions, not proved.",
              tech="Lean 4 proof (abstract arithmetic) + grid correspondence + membership Spec oracle + traced executions", ref="5/C14"),
+
+ 'C06': dict(text="Lean theorems (21): the decimal, hexadecimal-float, digits(m,e,b) and rational(p,q) parsers return exactly the positional value of every spelling they accept and accept exactly the well-formed spellings (any digit count, exponent, separators); negated-zero fold; a literal is evaluated exactly and rounded once by fp.round; for the current front end the float-token path through Python's float is modelled faithfully (binary64 rounding + shortest repr) with proved counterexamples (known finding F5) and the full theorem literal_exact for the proposed repair. Tie: generated spellings evaluated by the real @fpy under REAL and narrow contexts vs the model, judged by an independent positional parser in exact rationals.",
+             note=TB + "; F5 (decimal literals go through Python's float) is a recorded known finding: its repair changes the meaning of 1e300 relied on by an existing test.",
+             tech="Lean 4 proof (parser = positional value) + spelling correspondence + rational Spec oracle", ref="5/C06"),
 }
 NA_REASON = "check not built yet (work in progress; see DESIGN.md section 8 build order)"
 
